@@ -20,10 +20,10 @@ M = [
     ("c01-parent-returns-self", "C01", "exec/axisselectors.go", "			result = append(result, i.Parent())\n", "			result = append(result, i)\n"),
     ("c01-preceding-found-ignored", "C01", "exec/axisselectors.go",
      "		if found {\n			result = append(result, children[i])\n			result = appendDescendant(children[i], result)\n		}",
-     "		result = append(result, children[i])\n		result = appendDescendant(children[i], result)"),
+     "		if found || i == 0 {\n			result = append(result, children[i])\n			result = appendDescendant(children[i], result)\n		}"),
     ("c01-abs-path-from-context", "C01", "exec/contextfn_paths.go", "	context.result = NodeSet{context.root}\n	return execChildren(context, expr)", "	return execChildren(context, expr)"),
     ("c01-principal-type-dropped", "C01", "exec/contextfn_paths.go", "	case node.Attribute:\n		return context.principalNodeType == attributeNodeType", "	case node.Attribute:\n		return true"),
-    ("c02-last-constant", "C02", "exec/function.go", "		return Number(c.contextSize), nil", "		return Number(2), nil"),
+    ("c02-last-constant", "C02", "exec/function.go", "		return Number(c.contextSize), nil", "		return Number(c.contextSize*0 + 2), nil"),
     ("c02-position-zero", "C02", "exec/contextfn_paths.go", "		nextContext.contextPosition = i\n", "		nextContext.contextPosition = 0\n"),
     ("c02-no-backward-reverse", "C02", "exec/axisselectors.go", "func cleanupBackwardAxis(nextResult NodeSet) NodeSet {\n	sort.Sort(backwardSort(nextResult))", "func cleanupBackwardAxis(nextResult NodeSet) NodeSet {\n	sort.Sort(forwardSort(nextResult))"),
     ("c02-numeric-pred-truncated", "C02", "exec/contextfn_paths.go", "			if float64(i+1) == float64(n) {", "			if (i + 1) == int(n) {"),
@@ -46,7 +46,7 @@ M = [
     ("c07-strlen-bytes", "C07", "exec/function.go", "	return Number(utf8.RuneCountInString(args[0].String())), nil", "	return Number(len(args[0].String())), nil"),
     ("c07-normalize-trim-only", "C07", "exec/function.go", "	return strings.Join(fields, \" \")", "	if len(fields) > 3 {\n		return strings.TrimSpace(str)\n	}\n\n	return strings.Join(fields, \" \")"),
     ("c07-translate-last-occurrence", "C07", "exec/function.go", "				mapped = true\n				break", "				mapped = true"),
-    ("c07-substring-off-by-one", "C07", "exec/function.go", "		if pos >= begin && pos < end {", "		if pos >= begin && pos <= end-0.5 {"),
+    ("c07-substring-off-by-one", "C07", "exec/function.go", "		if pos >= begin && pos < end {", "		if pos > begin-1 && pos < end {"),
     ("c08-subtract-is-add", "C08", "exec/contextfn_numbers.go", "	contextFunctions[symbols.NT_AdditiveExprSubtract] = execAdditiveExprSubtract", "	contextFunctions[symbols.NT_AdditiveExprSubtract] = execAdditiveExprAdd"),
     ("c08-lte-is-lt", "C08", "exec/contextfn_comparisons.go", "	contextFunctions[symbols.NT_RelationalExprLessThanOrEqual] = execRelationalExprLessThanOrEqual", "	contextFunctions[symbols.NT_RelationalExprLessThanOrEqual] = execRelationalExprLessThan"),
     ("c08-filter-path-dropped", "C08", "exec/contextfn_paths.go", "	contextFunctions[symbols.NT_PathExprFilterWithAbbreviatedPath] = execAbbreviatedRelativeLocationPath\n", ""),
